@@ -34,6 +34,10 @@ def make_creds(rng, ngroups=None):
         if "readonly" in k:
             u["readonly"] = True
         users["user%d" % i] = u
+    # accounts nobody can log into: the stored string is not a complete hash (locked account, method prefix only, empty)
+    for i, h in enumerate(rng.sample(["*", "!", "", "$6$", "$6$salt$", "$1$", "ab", "x"], rng.randint(1, 3))):
+        users["locked%d" % i] = {"password": token(rng), "hash": h, "fetchGroups": list(pool[:2]), "setGroups": list(pool[:2]), "callGroups": list(pool[:2]),
+                                 "admin": rng.random() < 0.3}
     # make sure every pool group is known to the daemon (it learns groups from the file only)
     users["user0"].setdefault("fetchGroups", [])
     for g in pool:
@@ -100,6 +104,8 @@ def access(case, res):
         def auth(c, user=None, right=True):
             user = user or rng.choice(names)
             pw = creds.users[user]["password"] if user in creds.users else "nobody"
+            if user in creds.users and creds.users[user].get("hash") is not None:
+                pw = rng.choice(["", "x", token(rng), creds.users[user]["hash"], "*0"])      # nothing opens a locked account
             if not right:
                 pw = rng.choice([token(rng), "", pw[:-1], pw + "x"])
                 S.passwords.add(pw) if len(pw) > 8 else None
